@@ -1,4 +1,7 @@
+mod ast;
+mod gen;
 mod gen_clvm;
+mod p_compile;
 mod ops_clvm;
 mod ops_compile;
 mod p_optables;
@@ -46,6 +49,9 @@ fn main() {
         "worker" => pool::worker_main(handle),
         "replay-clvm" => p_clvm::replay(&rest),
         "drive-clvm" => p_clvm::drive(&rest),
+        "drive-compile" => p_compile::drive(&rest),
+        "replay-compile" => p_compile::replay(&rest),
+        "gen-programs" => p_compile::gen_programs(&rest),
         "drive-entry" => p_entry::drive(&rest),
         "drive-includes" => p_includes::drive(&rest),
         "c05-child" => p_history::child(&rest),
